@@ -1,4 +1,5 @@
 import Stbem.Model.Quad
+import Stbem.Model.Slobo
 import Driver.Util
 /- Line protocol for the quadrature model. -/
 namespace Driver
@@ -40,8 +41,16 @@ def showRule3 (r : Rule3) : String :=
   showRatList (r.map (·.x)) ++ ";" ++ showRatList (r.map (·.y)) ++ ";" ++ showRatList (r.map (·.z)) ++ ";" ++
     showRatList (r.map (·.w))
 
+/-- one term `c,i,j,k` of the `s:` integrand -/
+def parseTerm? (s : String) : Option (Rat × Nat × Nat × Nat) :=
+  match s.splitOn "," with
+  | [c, i, j, k] => do
+      let c ← parseRat? c; let i ← i.toNat?; let j ← j.toNat?; let k ← k.toNat?
+      some (c, i, j, k)
+  | _ => none
+
 /-- integrand mini-language: `m:i:j:k` monomial, `r:c0:c1:c2:c3` = 1/(c0+c1 x+c2 y+c3 z),
-`p:c0:c1:…` polynomial in x, `q:…` polynomial in x times (1 + y + 2z) -/
+`p:c0:c1:…` polynomial in x (Horner, `evalPoly`), `s:c,i,j,k:c,i,j,k:…` = Σ c xⁱ yʲ zᵏ -/
 def parseFun? (s : String) : Option (Rat → Rat → Rat → Rat) :=
   match s.splitOn ":" with
   | ["m", i, j, k] => do
@@ -52,7 +61,15 @@ def parseFun? (s : String) : Option (Rat → Rat → Rat → Rat) :=
       some fun x y z => 1 / (c0 + c1 * x + c2 * y + c3 * z)
   | "p" :: cs => do
       let cs ← cs.mapM parseRat?
-      some fun x _ _ => cs.foldr (fun c acc => c + x * acc) 0
+      some fun x _ _ => evalPoly cs x
+  | "s" :: ts => do
+      let ts ← ts.mapM parseTerm?
+      some fun x y z => sumR (ts.map fun t => t.1 * x ^ t.2.1 * y ^ t.2.2.1 * z ^ t.2.2.2)
+  | _ => none
+
+def parseSeg? (s : String) : Option Seg :=
+  match parseRatList? s with
+  | some [p1, p2, d1, d2, s0] => some ⟨p1, p2, d1, d2, s0⟩
   | _ => none
 
 def quadCmd (args : List String) : String :=
@@ -89,6 +106,19 @@ def quadCmd (args : List String) : String :=
       match parseRule1? gx, parseRule1? gl, parseFun? f, parseRat? a, parseRat? h with
       | some gx, some gl, some f, some a, some h => showRat (semi12 gx gl (fun x => f x 0 0) a h)
       | _, _, _, _, _ => bad
+  | ["slo", "h12g", gx, gl, f, a, h, g] =>
+      match parseRule1? gx, parseRule1? gl, parseFun? f, parseRat? a, parseRat? h, parseSeg? g with
+      | some gx, some gl, some f, some a, some h, some g =>
+          showRat (semi12g gx gl g.at (fun x p => f x p.1 p.2) a h)
+      | _, _, _, _, _, _ => bad
+  | ["slo", "pwval", gx, gl, f, a1, b1, g1, a2, b2, g2, same] =>
+      match parseRule1? gx, parseRule1? gl, parseFun? f, [a1, b1, a2, b2].mapM parseRat?, parseSeg? g1,
+        parseSeg? g2 with
+      | some gx, some gl, some f, some [a1, b1, a2, b2], some g1, some g2 =>
+          match semi12pwVal gx gl (same == "1") g1.at g2.at (fun x p => f x p.1 p.2) a1 b1 a2 b2 with
+          | .ok v => showRat v
+          | .error e => "error:" ++ e
+      | _, _, _, _, _, _ => bad
   | ["slo", "pw", gx, gl] => match parseRule1? gx, parseRule1? gl with
       | some gx, some gl => showRule2 (semi12pw gx gl) | _, _ => bad
   | _ => bad
